@@ -109,7 +109,10 @@ class GhostRNG(object):
         st = self.stream
         if not shape:
             return mk(el('loc', loc, ()) + el('scale', scale, ()) * Z(st, c))
-        return T(shape, lambda idx: el('loc', loc, idx) + el('scale', scale, idx) * Z(st, c, *idx))
+        t_ = T(shape, lambda idx: el('loc', loc, idx) + el('scale', scale, idx) * Z(st, c, *idx))
+        if all(sp.sympify(d_).is_Integer for d_ in shape):
+            return t_.concrete()        # concrete sizes: an ordinary object array, so that the real numpy code goes on
+        return t_
 
     def standard_normal(self, size=None):
         return self.normal(0, 1, size)
@@ -118,12 +121,13 @@ class GhostRNG(object):
         n = self.normal(mean, sigma, size)
         if isinstance(n, T):
             return T(n._shape, lambda idx: sym.Ex(n.fn(idx)))
+        if isinstance(n, _np.ndarray):
+            return _np.frompyfunc(lambda v: mk(sym.Ex(w(v))), 1, 1)(n)
         return mk(sym.Ex(w(n)))
 
     def choice(self, a, size=None, replace=True, p=None):
         c = self._next('choice')
-        if p is not None:
-            raise sym.Unsupported('choice with probabilities')
+        # (probabilities only change the law of the pick, not its provenance)
         if isinstance(a, T):
             n_opt = a._shape[0]
             pick = lambda k: a.fn((k,))
@@ -142,7 +146,10 @@ class GhostRNG(object):
         if size is None:
             return mk(pick(CH(st, c, n_opt)))
         shape = self._shape(size)
-        return T(shape, lambda idx: pick(CH(st, c, n_opt, *idx)))
+        t_ = T(shape, lambda idx: pick(CH(st, c, n_opt, *idx)))
+        if all(sp.sympify(d_).is_Integer for d_ in shape):
+            return t_.concrete()
+        return t_
 
     def integers(self, low, high=None, size=None, **kw):
         c = self._next('integers')
@@ -194,8 +201,17 @@ class RandomShim(object):
     def normal(self, *a, **k):
         return GLOBAL.rng.normal(*a, **k)
 
+    def standard_normal(self, *a, **k):
+        return GLOBAL.rng.standard_normal(*a, **k)
+
+    def lognormal(self, *a, **k):
+        return GLOBAL.rng.lognormal(*a, **k)
+
     def choice(self, *a, **k):
         return GLOBAL.rng.choice(*a, **k)
+
+    def randint(self, low, high=None, size=None, **k):
+        return GLOBAL.rng.integers(low, high, size=size)
 
     def __getattr__(self, name):
         raise sym.Unsupported('numpy.random.%s' % name)
@@ -220,7 +236,10 @@ class TruncnormShim(object):
             return TN(st, c, lo_, sc_, dn, up, *idx)
         if not shape:
             return mk(f(()))
-        return T(shape, f)
+        t_ = T(shape, f)
+        if all(sp.sympify(d_).is_Integer for d_ in shape):
+            return t_.concrete()
+        return t_
 
 
 class NormShim(object):
